@@ -37,6 +37,8 @@ def jobs(tier, prop="ASSERT_C02"):
     J = []
     J.append(op_job("add_v4_d1", "harness_add", 1, 2, 4, 900, prop=prop))
     J.append(op_job("remove_v4_d1", "harness_remove", 1, 2, 4, 2400, prop=prop))
+    if prop == "ASSERT_C02":
+        J[-1].solver = ["--sat-solver", "cadical"]  # MiniSat: none in 600 s on this formula; CaDiCaL ~300 s (C09's variant: MiniSat 110 s)
     # fixed shapes that make trie_remove choose between two children (both leaves; one leaf + one inner node)
     for nm, td, shape, nrecs in (("root2leaves", 1, 7, "1,1,1"), ("leafL_innerR", 2, 39, "1,1,1,1,1,1,1"), ("innerL_leafR", 2, 15, "1,1,1,1,1,1,1")):
         J.append(op_job("remove_v4_%s" % nm, "harness_remove", td, 1, 4, 2400, prop=prop,
